@@ -131,6 +131,8 @@ type state struct {
 	// (two overlapping IP pools, two overlapping IPAM blocks).  Such cases still exercise the
 	// model/code correspondence but the order oracle does not speak about them.
 	invalid bool
+	// a remote node's VTEP update lost its IPv4 side after an IPv4 VTEP had been sent
+	v4VtepDropped bool
 }
 
 func overlaps(a, b [2]uint32) bool {
@@ -519,8 +521,16 @@ func apply(s *state, op string) string {
 		return s.drain()
 	case "vtep":
 		n := atoi(w[1])
-		if atou(w[2]) != 0 { // a VTEP message without an IPv4 address is ignored by the v4 manager
+		if atou(w[2]) != 0 {
 			s.tr.vteps[n] = [2]uint32{atou(w[2]), atou(w[3])}
+		} else {
+			// the node's VTEP no longer has an IPv4 tunnel address (calc's VXLANResolver sends such an
+			// update when only the IPv6 side remains; the EventSequencer coalesces the preceding
+			// remove away): the datastore-derived truth is "no IPv4 VTEP for this node"
+			if _, had := s.tr.vteps[n]; had && s.pt == 2 && n != s.me {
+				s.v4VtepDropped = true
+			}
+			delete(s.tr.vteps, n)
 		}
 		msg := &proto.VXLANTunnelEndpointUpdate{Node: nodeName(n), Mac: "66:00:00:00:00:01", Ipv4Addr: ipOrEmpty(atou(w[2])), ParentDeviceIp: ipOrEmpty(atou(w[3]))}
 		if msg.Ipv4Addr == "" {
@@ -710,6 +720,8 @@ func oracleOrder(h *rt.H, s *state, ops []string) {
 			sig := "order-dep"
 			if s.localV4Flapped(ops) {
 				sig = "order-dep-local-v4cidr-zero"
+			} else if s.v4VtepDropped {
+				sig = "order-dep-stale-v4-vtep"
 			}
 			h.OracleFail(sig, "route kind after the history differs from a fresh instance fed the final state: "+strings.Join(diffs, "; "),
 				map[string]any{"ops": ops, "fresh_order_reversed": rev, "fresh_ops": s.canonicalOps(rev)})
